@@ -23,7 +23,10 @@ def run(tier, seed):
     # last chunk) resumed with duplicates (verification tail, repair) over data streams that lag behind the
     # control stream: the late chunks must not make the transfer fail
     hist = vlib.run_vh_sharded(['resume-tamper', '-seed', str(seed), '-only', 'untouched,torn-chunk,complete-torn-last', '-require-complete'], 6, timeout=1800)
-    for viol in sp['violations'] + hist['violations']:
+    # several files in negotiation and completion at once while the sender gives up the processor after every write
+    # on the control stream: records written in pieces by different goroutines must not end up interleaved
+    cy = vlib.run_vh_sharded(['ctrl-stream', '-runs', '24' if tier == "quick" else '240', '-seed', str(seed + 5)], 6, timeout=1800)
+    for viol in sp['violations'] + hist['violations'] + cy['violations']:
         if viol['sig'].get('property') == 'C03':
             v.violation(viol['sig'], viol.get('replay'))
     v.coverage = dict(states=mc['states'], transitions=mc['transitions'], traces_validated_against_impl=res['behaviours'],
@@ -32,6 +35,7 @@ def run(tier, seed):
                       grid=dict(rows_in_grid=res['grid_rows'], runs=res['behaviours'], outcomes=res['extra'].get('outcomes'),
                                 skipped_over_budget=res['extra'].get('skipped_over_budget')),
                       special_inputs=dict(runs=sp['behaviours'], outcomes=sp['extra'].get('outcomes')),
+                      yielding_control_stream=dict(runs=cy['behaviours'], outcomes=cy['extra'].get('outcomes')),
                       resumed_histories=dict(runs=hist['behaviours'], by_kind=hist['extra'].get('by_kind'), outcomes=hist['extra'].get('outcomes')))
     v.assumptions = ["watchdog: 5 s without completion on the simulated transports, 10 s on loopback QUIC; a hang is re-run once and only a repeat counts",
                      "legal names covered: spaces, unicode, leading dots, '..' inside a segment, ';' '&'; not covered: non-UTF-8 names (altered by the JSON manifest), names longer than 255 bytes"]
